@@ -32,6 +32,7 @@ func init() {
 		Rule{ID: "R17d", Doc: "TLS dials hand the dial context to the handshake (shared with C17)", Floor: 3, Run: r17d},
 		Rule{ID: "R05g", Doc: "a pooled connection reported Available never refuses the next id, and one that refuses is retired (otherwise every exchange on it fails until it idles out; shared with C05)", Floor: 4, AllVariants: true, Run: r05g},
 		Rule{ID: "R14h", Doc: "a dead cached QUIC connection is detected on its own context", Floor: 2, AllVariants: true, Run: r14h},
+		Rule{ID: "R14i", Doc: "blocking QUIC stream opens wait on the exchange context", Floor: 2, AllVariants: true, Run: r14i},
 	)
 }
 
@@ -454,7 +455,7 @@ func r14d(c *core.Ctx) {
 	okS := false
 	core.EachInstr(st, func(_ *ssa.BasicBlock, _ int, in ssa.Instruction) {
 		if s, ok := in.(*ssa.Store); ok {
-			if fa, ok := s.Addr.(*ssa.FieldAddr); ok && core.FieldAddrRef(fa).Name == "Closed" && core.Expr(s.Val) == "c.closed" {
+			if fa, ok := s.Addr.(*ssa.FieldAddr); ok && core.FieldAddrRef(fa).Name == "Closed" && core.IsFieldLoad(core.Strip(s.Val), "pipelineConn", "closed") {
 				okS = true
 			}
 		}
